@@ -167,6 +167,7 @@ impl GrammarBuilder {
         for mut terminal in grammar_terminals {
             let term_idx = self.get_term_idx();
             self.check_identifier(&terminal.name)?;
+            self.check_reserved(&terminal.name)?;
             self.terminals.insert(
                 terminal.name.as_ref().to_string(),
                 Terminal {
@@ -248,6 +249,7 @@ impl GrammarBuilder {
 
         for rule in rules {
             self.check_identifier(&rule.name)?;
+            self.check_reserved(&rule.name)?;
             // Create new nonterm index if needed
             let nt_idx;
             if let Some(nonterminal) = self.nonterminals.get(rule.name.as_ref()) {
@@ -723,6 +725,18 @@ impl GrammarBuilder {
             reachable: false.into(),
         };
         self.nonterminals.insert(name.into(), nt);
+    }
+
+    /// Names of the implicit symbols can't be used for user rules/terminals.
+    fn check_reserved(&self, name: &ValSpan<String>) -> Result<()> {
+        if ["STOP", "EMPTY", "AUG", "AUGL"].contains(&name.as_ref().as_str()) {
+            err!(
+                format!("'{}' is a reserved name.", &name),
+                Some(self.file.clone()),
+                name.span
+            )?
+        }
+        Ok(())
     }
 
     fn check_identifier(&self, name: &ValSpan<String>) -> Result<()> {
